@@ -126,6 +126,7 @@ func (d *Drv) onEvent(slot int, spec *ObsSpec, h ecs.Entity, ptrs typed.Ptrs) {
 			d.structuralRejected("observer callback")
 		}
 	}
+	d.poke("observer callback during " + x.Op.K.String())
 	if !spec.Ev.IsBefore() && x.Op.Leak != nil && !d.leaked && leakKinds[x.Op.K] {
 		// after-events fire when the operation's structural work is done: a query opened here may stay open
 		d.leaked = true
